@@ -23,7 +23,7 @@ from .. import panic as P
 from ..mir import const_int, op_place
 from .panic_common import run_loops, run_panic
 
-TECHNIQUE = "static analysis: reachability of panic-capable MIR constructs over the monomorphic call graph from every asset/archive entry point, with dataflow discharges (constant/masked/induction-variable index, dominating length guard, binrw count facts, infallible unwrap), recursion SCCs, typestate check of RefCell guards, acquire/release pairing of the inflate stream, and an extent analysis of the texture block decoders"
+TECHNIQUE = "static analysis: reachability of panic-capable MIR constructs over the monomorphic call graph from every asset/archive entry point, with dataflow discharges (constant/masked/induction-variable index, dominating length guard, binrw count facts, infallible unwrap), recursion SCCs, typestate check of RefCell guards, acquire/release pairing of the inflate stream, and an extent analysis of the texture block decoders; structural termination arguments for every reachable natural loop (finite iterator, stepped counter tested on exit, stepped bounds-checked index, input-consuming read)"
 TRUSTED = [
     "rustc nightly MIR and trait resolution",
     "binrw 0.14 generated code and std internals (not inspected; their panicking preconditions are modelled by the callee list in pv/panic.py)",
